@@ -133,3 +133,103 @@ func OnceValues[T1, T2 any](f func() (T1, T2)) func() (T1, T2) {
 	var b T2
 	return func() (T1, T2) { o.Do(func() { a, b = f() }); return a, b }
 }
+
+// Map stands in for sync.Map: every operation is one sim point; Range visits
+// the entries in insertion order (one of the orders the real map may use).
+type Map struct {
+	keys []any
+	vals map[any]any
+	_    [1]byte
+}
+
+func (m *Map) pt() {
+	simrt.Atomic(unsafe.Pointer(m))
+	if m.vals == nil {
+		m.vals = map[any]any{}
+	}
+}
+
+func (m *Map) Load(key any) (any, bool) { m.pt(); v, ok := m.vals[key]; return v, ok }
+
+func (m *Map) Store(key, value any) {
+	m.pt()
+	if _, ok := m.vals[key]; !ok {
+		m.keys = append(m.keys, key)
+	}
+	m.vals[key] = value
+}
+
+func (m *Map) LoadOrStore(key, value any) (any, bool) {
+	m.pt()
+	if v, ok := m.vals[key]; ok {
+		return v, true
+	}
+	m.keys = append(m.keys, key)
+	m.vals[key] = value
+	return value, false
+}
+
+func (m *Map) del(key any) {
+	delete(m.vals, key)
+	for i, k := range m.keys {
+		if k == key {
+			m.keys = append(m.keys[:i:i], m.keys[i+1:]...)
+			return
+		}
+	}
+}
+
+func (m *Map) LoadAndDelete(key any) (any, bool) {
+	m.pt()
+	v, ok := m.vals[key]
+	if ok {
+		m.del(key)
+	}
+	return v, ok
+}
+
+func (m *Map) Delete(key any) { m.pt(); m.del(key) }
+
+func (m *Map) Swap(key, value any) (any, bool) {
+	m.pt()
+	old, ok := m.vals[key]
+	if !ok {
+		m.keys = append(m.keys, key)
+	}
+	m.vals[key] = value
+	return old, ok
+}
+
+func (m *Map) CompareAndSwap(key, old, new any) bool {
+	m.pt()
+	if v, ok := m.vals[key]; ok && v == old {
+		m.vals[key] = new
+		return true
+	}
+	return false
+}
+
+func (m *Map) CompareAndDelete(key, old any) bool {
+	m.pt()
+	if v, ok := m.vals[key]; ok && v == old {
+		m.del(key)
+		return true
+	}
+	return false
+}
+
+func (m *Map) Range(f func(key, value any) bool) {
+	m.pt()
+	keys := append([]any(nil), m.keys...)
+	for _, k := range keys {
+		v, ok := m.vals[k]
+		if !ok {
+			continue
+		}
+		if !f(k, v) {
+			return
+		}
+	}
+}
+
+func (m *Map) Clear() { m.pt(); m.keys, m.vals = nil, map[any]any{} }
